@@ -50,9 +50,13 @@ RULES = [
     ("glam", "(g (lam 1 ?a))", "(lam 1 (g ?a))", [1], [("c",), ("(v 3)",), ("(v 1)",), ("(f 1 3)",), ("(f 3 1)",), ("(f 2 3)",)]),
     ("hag", "(h ?a (g ?a))", "(g ?a)", [], [("c",), ("(v 3)",), ("(f 2 3)",), ("(g c)",)]),
     ("fswap", "(h (f 1 2) (f 2 1))", "(g (f 1 2))", [1, 2], [()]),
+    # explicit pattern slots tie a (possibly symmetric) child to a non-symmetric sibling
+    ("hfp", "(h (f 1 2) (p 2 1))", "(g (p 1 2))", [1, 2], [()]),
+    ("hfv", "(h (f 1 2) (v 1))", "(g (v 1))", [1, 2], [()]),
+    ("hfpb", "(h (f 1 2) (h ?b (p 2 1)))", "(h ?b (p 1 2))", [1, 2], [("c",), ("(v 3)",), ("(v 1)",)]),
 ]
 # balanced alias unions (same free slots on both sides, no redundancy by themselves)
-ALIAS = [("c", "d"), ("(v 3)", "(g (v 3))"), ("(f 2 3)", "(g (f 2 3))"), ("(f 2 3)", "(f 3 2)"), ("(g c)", "d"),
+ALIAS = [("(p 2 1)", "(g (p 2 1))"), ("c", "d"), ("(v 3)", "(g (v 3))"), ("(f 2 3)", "(g (f 2 3))"), ("(f 2 3)", "(f 3 2)"), ("(g c)", "d"),
          ("(v 1)", "(g (v 1))"), ("(f 1 2)", "(f 2 1)"), ("(f 1 3)", "(g (f 1 3))"), ("(f 1 2)", "(g (f 1 2))")]
 
 def build(rule):
